@@ -14,9 +14,9 @@ export PYTHONPATH=$wt/src:$wt PYTHONDONTWRITEBYTECODE=1
 echo "== $id property=$prop worktree=$wt base=$(git rev-parse --short HEAD)"
 echo "== files changed:"; git diff --stat | tail -5
 echo "== demo WITH change:"; timeout 600 /venv/bin/python $demo > $out/demo_with.txt 2>&1; w=$?; tail -3 $out/demo_with.txt; echo "exit=$w"
-git stash -q
+git diff > /tmp/cm_$id.patch; git apply -R /tmp/cm_$id.patch
 echo "== demo WITHOUT change:"; timeout 600 /venv/bin/python $demo > $out/demo_without.txt 2>&1; wo=$?; tail -3 $out/demo_without.txt; echo "exit=$wo"
-git stash pop -q
+git apply /tmp/cm_$id.patch
 echo "== suite WITH change:"; /venv/bin/python -m pytest -q -p no:cacheprovider -k "not _java" --deselect tests/test_integration.py --timeout=900 2>&1 | grep -E "^[0-9]+ passed|passed|failed" | tail -1
 echo "== verdict: demo_with=$w demo_without=$wo"
 } > $out/confirm.log 2>&1
